@@ -142,6 +142,9 @@ def run_err_family(fam, st):
 
     if fam["kind"] == "nested":
         frame = nested_frame(fam["inner"], fam["bit"])
+    elif fam["kind"] == "embedded":
+        frame = embedded_frame(fam["which"], fam["lead"])
+        fam = {**fam, "len": len(frame)}
     else:
         frame = pinned.frame(items.unknown_payload(fam["len"] - 6, 4020, fam["len"])
                              if fam["len"] - 6 >= 2 else bytes([0x3E] * (fam["len"] - 6)))
@@ -182,12 +185,23 @@ def run_err_family(fam, st):
                 ("after the same bytes were parsed with validate=0: " if pre else "") + f"validate={fam.get('validate', 1)!r}: frame of {len(frame)} B with error pattern {e:#x} ({bin(e).count('1')} bits, span "
                 f"{e.bit_length() - (e & -e).bit_length() + 1}) -> {res}")
         st.add({"kind": "err", "len": fam["len"], "e": hex(e), "pre": pre,
-                "nested": [fam["inner"], fam["bit"]] if fam["kind"] == "nested" else None}, out)
+                "nested": [fam["inner"], fam["bit"]] if fam["kind"] == "nested" else None,
+                "embedded": [fam["which"], fam["lead"]] if fam["kind"] == "embedded" else None}, out)
         st.evaluations -= 1
         st.nontrivial -= 1
 
     kind = fam["kind"]
-    if kind in ("1bit", "nested"):
+    if kind == "embedded":
+        # every pattern confined to the first three octets that touches the first one (a burst of
+        # span <= 24), and every single-octet pattern anywhere (a burst of span <= 8)
+        for b0 in range(1, 256):
+            for b1 in (0x00, 0x01, 0x80, 0xFF):
+                for b2 in (0x00, 0x01, 0x80, 0xFF):
+                    one(((b0 << 16) | (b1 << 8) | b2) << (nbits - 24))
+        for pos in range(1, len(frame)):
+            for v in range(1, 256):
+                one(v << (8 * (len(frame) - 1 - pos)))
+    elif kind in ("1bit", "nested"):
         for b in range(nbits):
             one(1 << b)
     elif kind == "2bit":
@@ -235,6 +249,25 @@ def run_err_family(fam, st):
     st.nontrivial += n
     st.extra.setdefault("patterns_by_family", {})
     st.extra["patterns_by_family"][kind] = st.extra["patterns_by_family"].get(kind, 0) + n
+
+
+def embedded_frame(which, lead):
+    """
+    A valid frame that carries a complete valid frame INSIDE its payload, laid out so that every
+    suffix starting at the inner preamble is itself a CRC codeword: payload = number + ``lead``
+    content bytes + CRC-24Q of everything so far (register back to zero) + inner frame; the outer
+    trailer is then 000000.  A decoder that "tolerates" a damaged first octet by looking for the
+    next preamble accepts the rest.
+    """
+    inner = {"1005": items.frames()["F19"]["data"], "unk": items.frames()["F2"]["data"]}[which]
+    content = bytes((i * 29 + 5) & 0x7F for i in range(lead))  # no D3 before the inner frame
+    num = b"\x4c\xe0"  # 1230
+    ln = 2 + lead + 3 + len(inner)
+    prefix = b"\xd3" + ln.to_bytes(2, "big") + num + content
+    body = prefix + pinned.crc24q_table(prefix).to_bytes(3, "big") + inner
+    frame = body + pinned.crc24q_table(body).to_bytes(3, "big")
+    core.require(frame[-3:] == b"\x00\x00\x00" and pinned.frame_ok(frame), "embedded frame construction")
+    return frame
 
 
 def nested_frame(inner, bit):
@@ -297,6 +330,7 @@ def run_v0(st, tier):
             st.add({"kind": "v0h", "name": it["name"]}, out)
 
 
+@core.guard
 def judge(case):
     """Replay of a single recorded case."""
     from pyrtcm import RTCMReader, calc_crc24q  # pylint: disable=import-outside-toplevel
@@ -308,8 +342,10 @@ def judge(case):
     elif case["kind"] == "err":
         ln = case["len"]
         frame = nested_frame(*case["nested"]) if case.get("nested") else \
+            embedded_frame(*case["embedded"]) if case.get("embedded") else \
             pinned.frame(items.unknown_payload(ln - 6, 4020, ln) if ln - 6 >= 2
                          else bytes([0x3E] * (ln - 6)))
+        ln = len(frame)
         dmg = (int.from_bytes(frame, "big") ^ int(case["e"], 16)).to_bytes(ln, "big")
         if case.get("pre"):
             try:
@@ -386,6 +422,9 @@ def plan(tier):
             if outer != inner and inner + 3 <= outer <= 1023 and (tier == "thorough" or outer <= 300
                                                                   or bit == 9):
                 fams.append({"kind": "nested", "inner": inner, "bit": bit, "len": outer + 6})
+    for which in ("1005", "unk"):
+        for lead in ((0, 1, 4) if tier == "quick" else (0, 1, 2, 3, 4, 9, 30)):
+            fams.append({"kind": "embedded", "which": which, "lead": lead, "len": 0})
     fams.append({"kind": "2bit-dist", "len": 1029, "dists": [1, 24] if tier == "quick"
                  else [1, 2, 23, 24, 25, 8231], "stride": 1})
     for ln in ([6, 8] if tier == "quick" else [6, 7, 8, 9, 10]):
